@@ -154,7 +154,12 @@ def run(chk):
     go = drv.run(gl)
     i = 0
     for uts, rows in gm:
-        got = goodman_haigh(np.array(rows), uts)
+        arr = np.array(rows, dtype=float)
+        got = goodman_haigh(arr, uts)
+        again = goodman_haigh(arr, uts)          # same (float) array passed again, as with count_cycles(...)[:, :2]
+        if not (np.array_equal(arr, np.array(rows, dtype=float)) and np.array_equal(got, again)):
+            chk.fail("effective range == range*uts/(uts-mean) on every call (the input table is not modified)",
+                     dict(cycles=rows, uts=uts), [float(v) for v in got], [float(v) for v in again])
         chk.count("gh")
         inp = dict(cycles=rows, uts=uts)
         for j, (r, m) in enumerate(rows):
